@@ -341,7 +341,7 @@ def plan(tier, seed):
         for i in range(16):
             tasks.append(("converse", {"word": 2, "lo": i * 4096, "hi": (i + 1) * 4096}))
         for _ in range(16):
-            tasks.append(("generated", {"examples": 20000}))
+            tasks.append(("generated", {"examples": 60000}))
     else:
         lens = sorted({1, 2, 255, 256, 257, 65535, 65536} | set(range(1 + seed % 256, 65537, 256)))
         tasks.append(("lengths", {"lengths": lens}))
